@@ -240,7 +240,7 @@ class SymCtx(BaseCtx):
 
     def byte_var(self, name):
         v = z3.Int(name)
-        self.e.dom.setdefault(name, ALPHA)
+        self.e.dom.setdefault(name, frozenset(range(256)))
         self.e.add_unary(z3.And(v >= 0, v <= 255))
         self.e.bytes_ids.add(v.get_id())
         return v
